@@ -324,7 +324,7 @@ def negative_traces():
 
 # ------------------------------------------------------------------------------------------------ run
 def run(tier, seed):
-    t0, c0, k0 = time.time(), time.process_time(), sum(resource.getrusage(resource.RUSAGE_CHILDREN)[:2])
+    t0, cpu0, kid0 = time.time(), time.process_time(), sum(resource.getrusage(resource.RUSAGE_CHILDREN)[:2])
     rng = random.Random(seed)
     g, hists, model_negs, steps = model_and_histories(tier)
     t_model = time.time() - t0
@@ -520,8 +520,8 @@ def run(tier, seed):
            "negative_controls_rejected": nneg + n_sem_neg + model_negs,
            "exceptions_seen": st.get("exceptions", {}), "equal_raised": st.get("equal_raised", {}),
            "timing_s": {"model+gen": round(t_model, 1), "space+replay": round(t_replay, 1), "total": round(time.time() - t0, 1),
-                        "python_cpu": round(time.process_time() - c0, 1),
-                        "tlc_cpu": round(sum(resource.getrusage(resource.RUSAGE_CHILDREN)[:2]) - k0, 1)}}
+                        "python_cpu": round(time.process_time() - cpu0, 1),
+                        "tlc_cpu": round(sum(resource.getrusage(resource.RUSAGE_CHILDREN)[:2]) - kid0, 1)}}
     return CheckResult(coverage=cov, violations=viol, assumptions=[
         "content is read through the public accessors (class, wires, data, hyperparameters / bound arguments); list vs tuple and the "
         "interface of a value after capture evaluation are not attributes",
